@@ -164,6 +164,7 @@ type isoExec struct {
 	e     *WEnv
 	s     *isoSched
 	stats map[string]int
+	race  raceExec // C17(b): `racerun` ops are part of the same stream (see eng_race.go)
 }
 
 func (x *isoExec) env() *WEnv {
@@ -212,6 +213,9 @@ func NewWEnvWith(pre func(e *WEnv)) *WEnv {
 }
 
 func (x *isoExec) Exec(a []string) string {
+	if len(a) == 3 && a[0] == "racerun" {
+		return x.race.Exec([]string{"run", a[1], a[2]})
+	}
 	e := x.env()
 	if len(a) == 0 {
 		return "bad-op"
@@ -679,6 +683,7 @@ func (x *isoExec) sweep(blks []string, only []int, q []string) string {
 // ---------------------------------------------------------------- generator
 
 func genIso(g *Gen) {
+	genRaceOps(g, "racerun")
 	nHist := g.Scale(14, 160)
 	for h := 0; h < nHist; h++ {
 		l := newLedGen(g, "iso")
